@@ -116,6 +116,8 @@ func execConc(op string, a []string) vlib.Res {
 		return execStall(a)
 	case "dup":
 		return execDup(a)
+	case "gate":
+		return execGate(a)
 	case "run":
 		if len(a) != 6 {
 			break
